@@ -7,17 +7,22 @@
    (reject-changed:.. twin:.. probe-..), rejected loads leave an error text (reject-noerror), a valid
    file loads after a rejected one (reload-after-reject), registered hooks fire and playback follows
    the settings in force (hook-fire:.. play:..), a crash inside a call (crash:<call>).
+   Set-up lock of a loaded EA-MUS song: the format's volume model and two chips are in force (locked-inforce:..),
+   an accepted setter is stored (locked-stick:..), the stored requests are in force once the lock is gone
+   (locked-apply:.. locked-persist:..), a call that reports failure does not end the lock (reject-unlocked).
    Leg C: the recorded step is a step of the model, from the recorded pre-state (stateless), either of
    the code as it stands (Fix = {}) or of the repaired design; otherwise it is recorded as drift. *)
 EXTENDS Settings, Json, IOUtils
 T == ndJsonDeserialize(IOEnv.TRACE)
 MaxFails == 400
-AllFix == {"numchips", "trackopt", "dumper"}
+AllFix == {"numchips", "trackopt", "dumper", "rsxxlock"}
 VARIABLES l, pre, R, fails, cnt, drift, exec, xf
 vars == <<l, pre, R, fails, cnt, drift, exec, xf>>
 Cnt0 == [steps |-> 0, execs |-> 0, stick |-> 0, auto |-> 0, persist |-> 0, rejected |-> 0, rejbank |-> 0, rejmidi |-> 0,
          reload |-> 0, bankreset |-> 0, force |-> 0, twin |-> 0, probetwin |-> 0, probeaudio |-> 0, probesand |-> 0,
          play |-> 0, playloop |-> 0, hookfire |-> 0, hooksilent |-> 0, crashes |-> 0, voidinvalid |-> 0,
+         lockenter |-> 0, locksteps |-> 0, lockstick |-> 0, lockdefer |-> 0, lockrelease |-> 0, lockapply |-> 0,
+         lockreject |-> 0, lockplay |-> 0,
          refined |-> 0, drifted |-> 0, asis |-> 0, fixed |-> 0]
 Init == l = 1 /\ pre = Derive(S0) /\ R = R0 /\ fails = <<>> /\ cnt = Cnt0 /\ drift = <<>> /\ exec = 0 /\ xf = FALSE
 
@@ -47,9 +52,9 @@ StepCall(ev) ==
   LET a == Norm(ev.oa)  b == Norm(ev.ob)
       r == IF "r" \in DOMAIN ev THEN ev.r ELSE 0
       failed == Failed(ev, r)
-      R1 == RefStep(R, ev, r)
+      R1 == RefStep(R, ev, r, pre)
       ex == IF failed THEN {} ELSE Exp(ev, pre, R)
-      f == CallFails(pre, ev, r, a, R) \cup ForceFails(a, R1) \cup ReloadFails(ev, r, R) \cup TwinFails(a, b)
+      f == CallFails(pre, ev, r, a, R, R1) \cup ForceFails(a, R1) \cup ReloadFails(ev, r, R) \cup TwinFails(a, b)
            \cup (IF ev.e = "Probe" THEN ProbeFails(ev, R) ELSE {})
            \cup (IF ev.e = "PlaySong" THEN PlayFails(ev.pa, a, R1) \cup (IF ev.pa # ev.pb THEN {"play-twin"} ELSE {}) ELSE {})
       m0 == ModelStep(Proj(pre), ev, {})
@@ -78,6 +83,17 @@ StepCall(ev) ==
           !.probetwin = @ + B2N(ev.e = "Probe"),
           !.probeaudio = @ + B2N(ev.e = "Probe" /\ AudioComparable(ev.oa) /\ ev.pa.loud = 1),
           !.probesand = @ + B2N(ev.e = "Probe" /\ R.onlyFails /\ R.probe # <<>>),
+          \* the set-up lock: EA-MUS loads, calls made while locked, accepted setters while locked (stored request
+          \* checked), of these the three deferred ones, calls that ended the lock, of these with a request that differs
+          \* from the locked value (chip count # 2, volume model # Generic), rejected calls while locked, playbacks
+          !.lockenter = @ + B2N(R1.locked /\ ev.e = "OpenMidi" /\ ~failed),
+          !.locksteps = @ + B2N(R.locked),
+          !.lockstick = @ + (IF R.locked THEN Cardinality(ex) ELSE 0),
+          !.lockdefer = @ + B2N(R.locked /\ ~failed /\ ex # {} /\ ev.e \in {"SetNumChips", "SetVolModel", "SetRunAtPcm"}),
+          !.lockrelease = @ + B2N(R1.rel),
+          !.lockapply = @ + B2N(R1.rel /\ (a.nc # 2 \/ (R.req.gvm \notin {-1, 1} /\ ev.e # "OpenBank"))),
+          !.lockreject = @ + B2N(R.locked /\ failed),
+          !.lockplay = @ + B2N(played /\ R1.locked),
           !.play = @ + B2N(played),
           !.playloop = @ + B2N(played /\ Passes(R1) # 1),
           !.hookfire = @ + (IF played THEN nreg ELSE 0),
